@@ -162,9 +162,10 @@ class ReloadSim(S.Sim):
                 "raised": list(self.raised), "errors": list(self.errors)[-3:], "blocked": bool(self.blocked)}
 
 
-def run_versions(environ, texts, periodic_check=True):
+def run_versions(environ, texts, periodic_check=True, then_restart_all=False):
     """fresh start on texts[0], then `reloadconfig` after writing texts[1], texts[2], …
-    returns one observation per text"""
+    returns one observation per text; with `then_restart_all` one more: after the last reload every watcher is stopped
+    (`stop` without a name) and started again (`start` without a name), the observation carries the spawn lines in order"""
     d = tempfile.mkdtemp(prefix="verif-c12-", dir=SCRATCH)
     path = os.path.join(d, "circus.ini")
 
@@ -193,6 +194,19 @@ def run_versions(environ, texts, periodic_check=True):
                 out.append(o)
                 if s.blocked:
                     break
+            if then_restart_all and not s.blocked:
+                for cmd in ("stop", "start"):
+                    s.k.log = []
+                    s.nreq += 1
+                    s.apply(["req", {"command": cmd, "id": "x%d" % s.nreq, "properties": {"waiting": True}}])
+                    s.quiesce()
+                    if s.blocked:
+                        break
+                o = s.observe()
+                o["spawn_order"] = [l.split(" ")[3] for l in s.k.log if l.startswith("o spawn ")]
+                o["priorities"] = {S.enc(w.name.replace(" ", "_")): w.priority for w in s.arb.watchers}
+                o["autostart"] = {S.enc(w.name.replace(" ", "_")): bool(w.autostart) for w in s.arb.watchers}
+                out.append(o)
         finally:
             s.teardown()
         return out
